@@ -192,6 +192,17 @@ func (c *FnCtx) translateBlock(b *ssa.BasicBlock, entryItems []Item) {
 	}
 	bv.Out = st
 	bv.Done = true
+	for i := range bv.Exits {
+		ex := &bv.Exits[i]
+		if ex.Target == nil {
+			continue
+		}
+		for _, fr := range c.filling {
+			if fr.mk.Block().Dominates(b) && !fr.mk.Block().Dominates(ex.Target) {
+				c.assert(&ex.Items, "nilelem", "nilelem", "make([]"+tstr(fr.et)+", n) filled when leaving its scope", c.filledFormula(st, fr), nil, nil, true)
+			}
+		}
+	}
 	// invariants on edges into loop headers
 	for i := range bv.Exits {
 		ex := &bv.Exits[i]
@@ -475,7 +486,9 @@ func (c *FnCtx) instr(in ssa.Instruction, bv *BlockVC) {
 		c.assert(c.curItems, "slice", "makeslice", "", sAnd(sx("<=", "0", ln.T), sx("<=", ln.T, cp.T)), in, nil, true)
 		et := x.Type().Underlying().(*types.Slice).Elem()
 		if _, isPtr := et.Underlying().(*types.Pointer); isPtr {
-			c.assert(c.curItems, "nilelem", "nilelem", "make([]"+tstr(et)+", n) with n>0", sEq(ln.T, "0"), in, nil, true)
+			// make-then-fill: the no-nil-element discipline is checked where control leaves the region
+			// dominated by the make (and at returns inside it), not at the make itself
+			c.filling = append(c.filling, fillRec{x, ref, ln.T, et})
 		}
 		a := c.backArr(et)
 		c.setArr(st, a, sStore(c.arrIn(st, a), ref, fmt.Sprintf("((as const %s) %s)", arrSort(SInt, c.sortOf(et)), c.zeroOf(et))))
@@ -584,7 +597,7 @@ func (c *FnCtx) unop(x *ssa.UnOp) {
 		c.assumeFieldInv(x, l, bv)
 		if ia, ok := x.X.(*ssa.IndexAddr); ok {
 			if _, isSlice := ia.X.Type().Underlying().(*types.Slice); isSlice {
-				if _, isPtr := x.Type().Underlying().(*types.Pointer); isPtr {
+				if _, isPtr := x.Type().Underlying().(*types.Pointer); isPtr && !c.hasFillWindow(x.Type()) {
 					c.assume(c.curItems, sNot(sEq(bv.T, "0")))
 					c.note("slices of pointers hold no nil elements (global discipline: assumed on element load, checked on element store / append / make)")
 				}
@@ -921,6 +934,11 @@ func (c *FnCtx) ret(x *ssa.Return) {
 	for _, r := range x.Results {
 		results = append(results, c.val(r))
 	}
+	for _, fr := range c.filling {
+		if fr.mk.Block().Dominates(x.Block()) {
+			c.assert(c.curItems, "nilelem", "nilelem", "make([]"+tstr(fr.et)+", n) filled at return", c.filledFormula(c.cur, fr), x, nil, true)
+		}
+	}
 	if c.con != nil && !c.con.Trusted {
 		for _, cl := range c.con.Ensures {
 			if !clauseActive(cl, c.prop) {
@@ -937,6 +955,7 @@ func (c *FnCtx) ret(x *ssa.Return) {
 				}
 				ob := c.assert(c.curItems, "ensures", stem, "", f, x, cl.Tags, false)
 				ob.Text = cl.Text
+				ob.Group = cl.Group
 			}
 		}
 	}
@@ -1023,7 +1042,14 @@ func (c *FnCtx) ret(x *ssa.Return) {
 	}
 	// a closure re-establishes its own preconditions (they act as invariants of the callback loop)
 	if c.fn.Parent() != nil && c.con != nil {
+		pnames := map[string]bool{}
+		for _, p := range c.fn.Params {
+			pnames[p.Name()] = true
+		}
 		for _, r := range c.con.Requires {
+			if mentionsAny(r.E, pnames) {
+				continue // a fact about this invocation's arguments (schema fact), not an invariant of the callback loop
+			}
 			env := c.specEnvFor(c.cur, c.entry, nil)
 			ok := true
 			var f string
@@ -1044,4 +1070,32 @@ func (c *FnCtx) ret(x *ssa.Return) {
 		}
 	}
 	_ = strings.Join
+}
+
+type fillRec struct {
+	mk  *ssa.MakeSlice
+	ref string
+	ln  string
+	et  types.Type
+}
+
+func (c *FnCtx) filledFormula(st *State, fr fillRec) string {
+	a := c.backArr(fr.et)
+	return fmt.Sprintf("(forall ((fi Int)) (=> (and (<= 0 fi) (< fi %s)) (not (= %s 0))))", fr.ln, sSel(sSel(c.arrIn(st, a), fr.ref), c.ix("0", "fi")))
+}
+
+// hasFillWindow: does this function make a slice of element type t with non-zero length (so that
+// elements of such slices may be nil between the make and the end of its scope)?
+func (c *FnCtx) hasFillWindow(t types.Type) bool {
+	if c.fillTypes == nil {
+		c.fillTypes = map[string]bool{}
+		for _, b := range c.fn.Blocks {
+			for _, in := range b.Instrs {
+				if mk, ok := in.(*ssa.MakeSlice); ok {
+					c.fillTypes[typeKey(mk.Type().Underlying().(*types.Slice).Elem())] = true
+				}
+			}
+		}
+	}
+	return c.fillTypes[typeKey(t)]
 }
